@@ -141,7 +141,8 @@ func drawSchedule(t *rapid.T, label string, in []byte, cuts map[string][]int) ru
 	}
 	if rapid.IntRange(0, 3).Draw(t, label+"zeros") == 0 {
 		s.ZeroEvery = rapid.IntRange(1, 5).Draw(t, label+"zeroEvery")
-		s.ZeroRun = rapid.IntRange(1, 3).Draw(t, label+"zeroRun")
+		// (a bufio consumer gives up after 100 consecutive empty reads: stay well below)
+		s.ZeroRun = rapid.SampledFrom([]int{1, 2, 3, 1, 2, 3, 35, 60}).Draw(t, label+"zeroRun")
 	}
 	s.EOFWithData = rapid.Bool().Draw(t, label+"eofWithData")
 	return s
